@@ -98,11 +98,15 @@ where
         let path = self.changes_path();
         fs::create_dir_all(&path)?;
 
+        // Records above the stamp we are committing from belong to commits that were rolled
+        // back: drop them together with those at or above the new stamp, or they take up
+        // retention slots and break the stamp chain rollback_before() walks.
+        let current = self.header.stamp();
         let files: BTreeMap<Stamp, PathBuf> = fs::read_dir(&path)?
             .filter_map(|entry| {
                 let path = entry.ok()?.path();
                 let s = Stamp::from(path.file_name()?.to_str()?.parse::<u64>().ok()?);
-                if s < stamp {
+                if s < stamp && s <= current {
                     Some((s, path))
                 } else {
                     let _ = fs::remove_file(&path);
